@@ -228,9 +228,8 @@ def zernike_basis(mask, modes, vectorize=False, normalize=True, rho=None, theta=
     [1] Noll, RJ. Zernike polynomials and atmospheric turbulence. J Opt Soc Am 66, 207-211  (1976).
 
     """
-    modes = np.asarray(modes)
-    if modes.shape == ():
-        modes = modes[..., np.newaxis]
+    # a row or column matrix of modes is the same list of modes
+    modes = np.asarray(modes).ravel()
 
     mask = np.asarray(mask)
     basis = np.zeros(modes.shape + mask.shape)
